@@ -145,7 +145,14 @@ fn ty_j<'tcx>(tcx: TyCtxt<'tcx>, ty: Ty<'tcx>) -> J {
             ("a", args_j(tcx, args)),
         ]),
         Closure(did, _) => J::obj(vec![("k", J::s("closure")), ("def", J::S(key(tcx, *did)))]),
-        FnPtr(..) => J::obj(vec![("k", J::s("fnptr")), ("s", J::S(ty_str(ty)))]),
+        FnPtr(sig_tys, _) => {
+            let io = sig_tys.skip_binder().inputs_and_output;
+            J::obj(vec![
+                ("k", J::s("fnptr")),
+                ("s", J::S(ty_str(ty))),
+                ("io", J::A(io.iter().map(|t| ty_j(tcx, t)).collect())),
+            ])
+        }
         Alias(..) => J::obj(vec![("k", J::s("alias")), ("s", J::S(ty_str(ty)))]),
         Dynamic(..) => J::obj(vec![("k", J::s("dyn")), ("s", J::S(ty_str(ty)))]),
         _ => J::obj(vec![("k", J::s("other")), ("s", J::S(ty_str(ty)))]),
@@ -236,7 +243,74 @@ impl<'tcx> Cx<'tcx> {
         if let Some(tr) = tcx.trait_of_assoc(did) {
             v.push(("trait", J::S(key(tcx, tr))));
         }
+        // well-known core forwarders: name the function they forward to,
+        // resolved for this call site's types
+        if let Some((tdid, targs)) = self.forward_target(did, args) {
+            let mut f = vec![("def", J::S(key(tcx, tdid))), ("inst", J::S(key_args(tcx, tdid, targs)))];
+            let r = std::panic::catch_unwind(std::panic::AssertUnwindSafe(|| {
+                Instance::try_resolve(tcx, self.env, tdid, targs)
+            }));
+            if let Ok(Ok(Some(inst))) = r {
+                let rd = inst.def_id();
+                f.push(("res", J::S(key(tcx, rd))));
+                f.push(("res_inst", J::S(key_args(tcx, rd, inst.args))));
+                f.push(("res_local", J::B(rd.is_local())));
+                f.push(("res_args", args_j(tcx, inst.args)));
+            } else {
+                f.push(("res", J::Null));
+            }
+            v.push(("fwd", J::obj(f)));
+        }
         v
+    }
+
+    fn forward_target(&self, did: DefId, args: GenericArgsRef<'tcx>) -> Option<(DefId, GenericArgsRef<'tcx>)> {
+        let tcx = self.tcx;
+        let k = key(tcx, did);
+        let assoc = |diag: &str, name: &str| -> Option<DefId> {
+            let tr = tcx.get_diagnostic_item(rustc_span::Symbol::intern(diag))?;
+            tcx.associated_items(tr)
+                .filter_by_name_unhygienic(rustc_span::Symbol::intern(name))
+                .next()
+                .map(|a| a.def_id)
+        };
+        let tys: Vec<ty::GenericArg<'tcx>> = args.iter().filter(|a| !matches!(a.kind(), GenericArgKind::Lifetime(_))).collect();
+        match k.as_str() {
+            "core::convert::Into::into" if tys.len() == 2 => {
+                let t = assoc("From", "from")?;
+                Some((t, tcx.mk_args(&[tys[1], tys[0]])))
+            }
+            "core::convert::TryInto::try_into" if tys.len() == 2 => {
+                let t = assoc("TryFrom", "try_from")?;
+                Some((t, tcx.mk_args(&[tys[1], tys[0]])))
+            }
+            "core::str::<impl str>::parse" if tys.len() == 1 => {
+                let t = tcx.get_diagnostic_item(rustc_span::Symbol::intern("from_str_method"))?;
+                Some((t, tcx.mk_args(&[tys[0]])))
+            }
+            "core::cmp::PartialOrd::lt" | "core::cmp::PartialOrd::le" | "core::cmp::PartialOrd::gt"
+            | "core::cmp::PartialOrd::ge" if tys.len() == 2 => {
+                let tr = tcx.lang_items().partial_ord_trait()?;
+                let t = tcx.associated_items(tr).filter_by_name_unhygienic(rustc_span::Symbol::intern("partial_cmp")).next()?.def_id;
+                Some((t, tcx.mk_args(&[tys[0], tys[1]])))
+            }
+            "core::cmp::Ord::max" | "core::cmp::Ord::min" | "core::cmp::Ord::clamp" if tys.len() == 1 => {
+                let tr = tcx.get_diagnostic_item(rustc_span::Symbol::intern("Ord"))?;
+                let t = tcx.associated_items(tr).filter_by_name_unhygienic(rustc_span::Symbol::intern("cmp")).next()?.def_id;
+                Some((t, tcx.mk_args(&[tys[0]])))
+            }
+            "core::cmp::PartialEq::ne" if tys.len() == 2 => {
+                let tr = tcx.lang_items().eq_trait()?;
+                let t = tcx.associated_items(tr).filter_by_name_unhygienic(rustc_span::Symbol::intern("eq")).next()?.def_id;
+                Some((t, tcx.mk_args(&[tys[0], tys[1]])))
+            }
+            "alloc::string::ToString::to_string" if tys.len() == 1 => {
+                let tr = tcx.get_diagnostic_item(rustc_span::Symbol::intern("Display"))?;
+                let t = tcx.associated_items(tr).filter_by_name_unhygienic(rustc_span::Symbol::intern("fmt")).next()?.def_id;
+                Some((t, tcx.mk_args(&[tys[0]])))
+            }
+            _ => None,
+        }
     }
 
     fn konst(&self, c: &Const<'tcx>) -> J {
@@ -806,6 +880,7 @@ fn dump<'tcx>(tcx: TyCtxt<'tcx>, crate_name: &str) -> J {
             let vis = tcx.visibility(did);
             v.push(("vis", J::S(if vis.is_public() { "pub".into() } else { format!("{:?}", vis) })));
             let sig = tcx.fn_sig(did).instantiate_identity().skip_norm_wip().skip_binder();
+            let sig = tcx.try_normalize_erasing_regions(TypingEnv::post_analysis(tcx, did), rustc_type_ir::Unnormalized::new_wip(sig)).unwrap_or(sig);
             v.push(("unsafe", J::B(format!("{:?}", sig.safety()).contains("Unsafe"))));
             v.push(("inputs", J::A(sig.inputs().iter().map(|t| ty_j(tcx, *t)).collect())));
             v.push(("output", ty_j(tcx, sig.output())));
